@@ -22,9 +22,9 @@ switches off in its `x509.VerifyOptions` literal (regenerated), and name chainin
 theorem verify_options_as_modelled : omittedChecksDisabled = true ∧ verifyFlag "DisableNameChecks" = false := by decide
 
 /-- The regenerated order of `ValidateChain`'s checks has the shape the model gives it: parsing first, the seven
-leaf filters, then `Verify`, then `chainsEquivalent`. -/
+leaf filters, then `Verify`, then the empty-result test, then `chainsEquivalent`. -/
 theorem validate_order_as_modelled :
-    Gen.validateChainOrder.head? = some "parse" ∧ Gen.validateChainOrder.drop 8 = ["verify", "chainsEquivalent"] ∧
+    Gen.validateChainOrder.head? = some "parse" ∧ Gen.validateChainOrder.drop 8 = ["verify", "noChains", "chainsEquivalent"] ∧
     ∀ n ∈ ["notAfterStart", "notAfterLimit", "acceptOnlyCA", "rejectExpired", "rejectUnexpired", "rejectExtIds", "extKeyUsages"],
       n ∈ (Gen.validateChainOrder.drop 1).take 7 := by decide
 
